@@ -325,14 +325,21 @@ let run_arena (text : string) : string =
       a := a';
       match r with Some _ -> "ok" | None -> "NULL") (String.split_on_char ',' text))
 
-let parse_registry (s : string) : (bytes * z) list option =
+(* the registry named by a spec is the result of REGISTERING its items in order (a repeated tag is a
+   re-registration), through the registry model proved to be a finite map *)
+let parse_registry (s : string) : registry option =
   if s = "-" then None
-  else if s = "+" then Some []
+  else if s = "+" then Some reg_empty
   else
-    Some (List.map (fun item ->
+    Some (List.fold_left (fun r item ->
         match String.split_on_char ':' item with
-        | [t; h] -> (coq_bytes_of_string t, z_of_int (int_of_string h))
-        | _ -> failwith "bad registry") (String.split_on_char ',' s))
+        | [t; h] -> reg_register r (coq_bytes_of_string t) (z_of_int (min 5 (int_of_string h)))
+        | _ -> failwith "bad registry") reg_empty (String.split_on_char ',' s))
+
+let opts_of (r : registry option) (mode : z) (eof : bool) : opts =
+  { has_registry = (r <> None);
+    lookup_tag = (match r with Some st -> (fun t -> reg_lookup st t) | None -> (fun _ -> None));
+    reader_mode = mode; has_eof_value = eof }
 
 let pos3 ((a, b), c) = Printf.sprintf "%d,%d,%d" (int_of_n a) (int_of_n b) (int_of_n c)
 
@@ -408,7 +415,7 @@ let () =
            | "doc" :: h :: reg :: mode :: eof :: rest ->
              let a = bytes_of_hex h in
              let len = match rest with [l] -> int_of_string l | _ -> Array.length a in
-             let o = mk_opts (parse_registry reg) (z_of_int (int_of_string mode)) (eof = "1") in
+             let o = opts_of (parse_registry reg) (z_of_int (int_of_string mode)) (eof = "1") in
              show_doc_result o (run_doc c o (mem_of a) (n_of_int len)) verbose
            | ["int64"; h; radix; neg] ->
              let a = bytes_of_hex h in
